@@ -417,8 +417,80 @@ def rule_X10(ctx, rule: str = "X10") -> None:
     ctx.floor(rule, "helper x topology", n_ob, 15)
 
 
+def _module_constant_table(mod, name: str) -> bool:
+    """`name` is bound once at module level and nothing in the module stores into it or calls a mutating method on it"""
+    binds = [st for st in mod.tree.body if isinstance(st, (ast.Assign, ast.AnnAssign)) and any(isinstance(t, ast.Name) and t.id == name for t in (st.targets if isinstance(st, ast.Assign) else [st.target]))]
+    if len(binds) != 1:
+        return False
+    for node in ast.walk(mod.tree):
+        if isinstance(node, ast.Subscript) and isinstance(node.ctx, (ast.Store, ast.Del)) and isinstance(node.value, ast.Name) and node.value.id == name:
+            return False
+        if isinstance(node, ast.Call) and isinstance(node.func, ast.Attribute) and isinstance(node.func.value, ast.Name) and node.func.value.id == name and \
+                node.func.attr in ("update", "setdefault", "pop", "popitem", "clear", "__setitem__"):
+            return False
+        if isinstance(node, ast.Global) and name in node.names:
+            return False
+    return True
+
+
+def rule_X11(ctx, rule: str = "X11") -> None:
+    """a reference is spelled for the file that uses it: the string (and the import line it registers) that get_type_reference
+    produces is relative to one output package, so every value py_type / py_input_message_type / py_output_message_type return
+    for a message or enum type comes from a get_type_reference call made with the package and the import set of the compiler's own
+    output file - not from a table that outlives that file (a request-wide memo keyed by the proto type name hands the second
+    package the first one's spelling and registers no import for it)"""
+    from ..src import M_MODELS
+
+    mod = ctx.repo.mod(M_MODELS)
+    n_sites = 0
+    for q in ("FieldCompiler.py_type", "ServiceMethodCompiler.py_input_message_type", "ServiceMethodCompiler.py_output_message_type"):
+        fn = mod.func(q)
+        ctx.analysed(q)
+        paths = Interp(mod, fork_ifexp=True).run(fn)
+        ctx.count(len(paths))
+        bad = None
+        unknown = None
+        n = 0
+        for p in paths:
+            if p.outcome != "return" or p.value is None or p.value[0] == "c":
+                continue
+            n += 1
+            calls = [t for t in walk(p.value) if t[0] == "call" and dotted(t[1]).split(".")[-1] == "get_type_reference"]
+            if calls:
+                for c in calls:
+                    kw = dict((k, v) for k, v in c[3] if k)
+                    pk, im = kw.get("package"), kw.get("imports")
+                    if pk is None or im is None or show(pk) != "self.output_file.package" or not show(im).startswith("self.output_file.imports"):
+                        bad = bad or (p, f"get_type_reference is given package={show(pk) if pk else None}, imports={show(im) if im else None}: not the package and import set of the file "
+                                         "this compiler writes into")
+                continue
+            reads = [t for t in walk(p.value) if t[0] == "sub" or (t[0] == "call" and t[1][0] == "a" and t[1][2] in ("get", "setdefault"))]
+            if reads:
+                tab = reads[0][1] if reads[0][0] == "sub" else reads[0][1][1]
+                root = show(tab)
+                if root.startswith("self.output_file.") or (root.startswith("self._") and root.count(".") == 1):
+                    continue    # a memo that lives and dies with the file (or the field) it was spelled for
+                if tab[0] in ("dictd", "c") or tab[0] == "n" and _module_constant_table(mod, tab[1]):
+                    n -= 1
+                    continue    # a module-level table nothing writes into: the scalar spellings, not a memo of references
+                bad = bad or (p, f"the reference is read from {root}[...] and no get_type_reference call is made on this path: that table is shared by every output package of the "
+                                 "request while the spelling (and the import line get_type_reference registers) is relative to one package")
+            else:
+                unknown = unknown or p
+        name = f"{q}:reference-spelled-for-own-file"
+        if bad:
+            ctx.refuted(rule, name, show(bad[0].value)[:60], mod.loc(fn), f"{q}: on {bad[0].val_text()[-160:]}: {bad[1]}",
+                        "one request where a.x.Holder and b.x.Holder both have a field of type a.y.Target")
+        elif unknown or not n:
+            ctx.inconclusive(rule, name, f"return value {show(unknown.value)[:80] if unknown else None} is neither a get_type_reference call nor a table read", mod.loc(fn))
+        else:
+            n_sites += 1
+            ctx.proved(rule, name, mod.loc(fn), f"{n} non-constant returning paths, each through get_type_reference(package=self.output_file.package, imports=self.output_file.imports_*)")
+    ctx.floor(rule, "reference sites", n_sites, 3)
+
+
 def run(ctx) -> None:
-    for name, fn in (("X10", rule_X10), ("X9", rule_X9), ("X1", template.rule_X1), ("X2", rule_X2), ("X3", rule_X3), ("X4", rule_X4), ("X5", rule_X5), ("X6", rule_X6), ("X7", rule_X7), ("X8", rule_X8)):
+    for name, fn in (("X10", rule_X10), ("X9", rule_X9), ("X1", template.rule_X1), ("X2", rule_X2), ("X3", rule_X3), ("X4", rule_X4), ("X5", rule_X5), ("X6", rule_X6), ("X7", rule_X7), ("X8", rule_X8), ("X11", rule_X11)):
         ctx.rules_run.append(name)
         fn(ctx)
     from .c03 import rule_P7, rule_P13
